@@ -162,6 +162,23 @@ def build_script_env():
             "CARGO_FEATURE_DEFAULT": "1"}
 
 
+# what cargo tells a build script about the TARGET (the script itself runs on the host): native, web, windows
+TARGET_ENVS = [
+    {},
+    {"TARGET": "wasm32-unknown-unknown", "CARGO_CFG_TARGET_ARCH": "wasm32", "CARGO_CFG_TARGET_OS": "unknown", "CARGO_CFG_TARGET_FAMILY": "wasm", "CARGO_CFG_UNIX": None, "CARGO_CFG_TARGET_POINTER_WIDTH": "32"},
+    {"TARGET": "x86_64-pc-windows-msvc", "CARGO_CFG_TARGET_OS": "windows", "CARGO_CFG_TARGET_FAMILY": "windows", "CARGO_CFG_WINDOWS": "", "CARGO_CFG_UNIX": None, "CARGO_CFG_TARGET_ENV": "msvc"},
+    {"CARGO_PKG_RUST_VERSION": "", "OUT_DIR": None, "CARGO_MANIFEST_DIR": None},
+]
+
+
+def with_target_envs(cases):
+    """give every case that has none a per-call environment, rotating over TARGET_ENVS"""
+    for i, c in enumerate(cases):
+        if "env" not in c and TARGET_ENVS[i % len(TARGET_ENVS)]:
+            c["env"] = TARGET_ENVS[i % len(TARGET_ENVS)]
+    return cases
+
+
 def _vdriver_once(cpath, tpath, keep, detail, outdir, extra, timeout):
     cmd = [VDRIVER, "gen", cpath, tpath, "--detail", str(detail)]
     if keep is not None:
@@ -182,6 +199,7 @@ def run_vdriver(cases, tag, keep=None, detail=0, outdir=None, extra=None, case_t
     shutil.rmtree(d, ignore_errors=True)
     os.makedirs(d, exist_ok=True)
     cpath = os.path.join(d, "cases.ndjson")
+    with_target_envs(cases)
     with open(cpath, "w") as f:
         for c in cases:
             f.write(json.dumps(c) + "\n")
